@@ -151,7 +151,8 @@ def job_callsites():
 
 
 def main():
-    jobs = [(job_closed_forms, {'lmode': 'sym'}), (job_closed_forms, {'lmode': 'each'}), (job_degree2, {}), (job_callsites, {})]
+    import c10
+    jobs = [(job_closed_forms, {'lmode': 'sym'}), (job_closed_forms, {'lmode': 'each'}), (job_degree2, {}), (job_callsites, {}), (c10.job_love_callsite, {'L': 4})]
     meta = {
         'explanation': 'The six functions of TidalPy/tides/love1d.py are taken from the current source (AST), executed on z3 real/complex symbols '
                        '(division-free rational functions, exact source literals) and compared with the closed form written independently in the harness; '
